@@ -818,6 +818,7 @@ func domAuth(env *Env) error {
 			h.sdkMsgGroup()
 			h.paramsGroup()
 			h.oracleGroup()
+			h.oracleMultiGroup() // dom_auth_oracle_multi.go
 			h.taskGroup()
 			env.Report.Histories++
 			if hi == 0 {
